@@ -145,6 +145,7 @@ class C09(Prop):
         # ---------------- phase 2: the same spec, rebuilt from a reset state, evaluated along the plan
         run = QRun(sim, plan)
         frames = []
+        states = set()
         estack = SymbolicExpression._symbolic_expression_stack_
         sig = []
         slot = None
@@ -241,6 +242,8 @@ class C09(Prop):
                             o = run.full(qid)
                             final = ("rows", o.end if o.end == "done" else "exc:" + str(o.exc), o.rowset())
                 sig.append((kind, repr(amb), len(frames)))
+                states.add((style, repr(_symbolic_mode.get()), tuple(f[0] for f in frames),
+                            slot.state if slot is not None else None, final is not None))
                 sim.end_op()
                 if sim.violations:
                     break
@@ -279,6 +282,7 @@ class C09(Prop):
         res.nontrivial = (sim.counters.get("probe:step_inside_block", 0) > 0 and uses_user_code[0]
                           and sim.counters.get("probe:judged", 0) > 0)
         res.steps = sim.seq
+        res.states = tuple(states)
         return res
 
     @staticmethod
